@@ -33,6 +33,17 @@ ENV = dict(os.environ)
 ENV.update({"CARGO_NET_OFFLINE": "true", "CARGO_TERM_COLOR": "never"})
 
 
+def repo_root():
+    """The source tree the harness is built against: read from harness/Cargo.toml, so that a check run
+    from a scratch checkout whose path dependencies point at a scratch worktree of /repo (mutation
+    testing) translates, scans and builds that tree and not /repo."""
+    toml = open(os.path.join(HARNESS, "Cargo.toml")).read()
+    m = re.search(r'trust-runtime\s*=\s*\{\s*path\s*=\s*"([^"]+)/crates/trust-runtime"', toml)
+    if not m:
+        raise RuntimeError("harness/Cargo.toml: trust-runtime path dependency not found")
+    return m.group(1)
+
+
 def sh(cmd, cwd=None, timeout=None, stdin=None, env=None):
     """Run a command; return (rc, stdout+stderr)."""
     p = subprocess.run(
